@@ -306,7 +306,7 @@ class Body:
             loops[e.dst] |= body
         out = []
         for h, blks in loops.items():
-            exits = [e for b in blks for e in self.succ.get(b, ()) if e.dst not in blks]
+            exits = [e for b in blks for e in self.succ.get(b, ()) if e.dst not in blks and self.blocks[e.dst]["term"]["k"] != "unreachable"]
             out.append((h, blks, exits))
         return out
 
